@@ -212,7 +212,7 @@ def _asc(rng, n, kind):
 
 def _cases(tier, rng):
     out = []
-    n = 1500 if tier == 'quick' else 30000
+    n = 1500 if tier == 'quick' else 150000
     for _ in range(n):
         k = rng.randrange(1, 7)
         kind = rng.choice(['num', 'num', 'txt'])
@@ -301,7 +301,7 @@ BOUNDED = [
     Stage('B1:lookup-and-criteria-functions', 'C19', _cases, _check,
           'random key vectors of length 1..6 (strictly ascending / descending for approximate MATCH, mixed-type with duplicates for exact '
           'MATCH incl. wildcards), tables up to 6x6 for INDEX / VLOOKUP / HLOOKUP / LOOKUP vs INDEX(MATCH), COUNTIF/SUMIF/AVERAGEIF with 19 '
-          'criteria forms; 1500 (quick) / 30000 (thorough) cases per family', classify=_classify, max_report=100000),
+          'criteria forms; 1500 (quick) / 150000 (thorough) cases per family', classify=_classify, max_report=100000),
 ]
 
 PROPERTIES = {
